@@ -191,6 +191,32 @@ pub fn explore(opts: &Opts) -> Explored {
                 }
             }
         }
+        // refusals: a nested part whose rank differs only by unit dimensions (same element count)
+        if d.len() >= 2 && d.len() <= 3 && d[0] >= 2 {
+            for which in [0usize, d[0] - 1] {
+                for variant in 0..2usize {
+                    let case = || format!("nested parts of {} where part {} has {}", name, which, if variant == 0 { "an extra trailing unit dimension" } else { "an extra leading unit dimension" });
+                    if l.want(&case) {
+                        let dd = d.clone();
+                        must_refuse(l, "refuse", &case, move || {
+                            let mut parts = Vec::new();
+                            for i in 0..dd[0] {
+                                let mut pd = dd[1..].to_vec();
+                                if i == which {
+                                    if variant == 0 {
+                                        pd.push(1);
+                                    } else {
+                                        pd.insert(0, 1);
+                                    }
+                                }
+                                parts.push(Array::from(pd));
+                            }
+                            Array::from(parts).dimensions().to_vec()
+                        });
+                    }
+                }
+            }
+        }
         // indexing: every multi-index and every flat index
         let case = || format!("index every element of {}", name);
         if l.want(&case) {
